@@ -28,7 +28,8 @@ CONSTANTS
   AsCodedBatch,   \* TRUE: reproduce finding F7
   AtLeastOne,     \* FALSE: reproduce finding F4
   WithTxn,        \* explore Commit / Abort
-  WithCancel      \* explore cancellation at every phase boundary
+  WithCancel,     \* explore cancellation at every phase boundary
+  WithAppend      \* explore append_item and rejected calls
 
 VARIABLES
   db,         \* [Indexes -> index value]: what the open write transaction sees
@@ -40,9 +41,10 @@ VARIABLES
   ccaps,
   poisoned,   \* a build failed in this transaction: the caller may only abort
   nbuilds,
-  last        \* outcome of the last finished call, for the properties
+  last,       \* outcome of the last finished call, for the properties
+  breq        \* ghost: tree count requested by the last successful full build of each index (0 = automatic, -1 = none)
 
-vars == <<db, committed, b, fresh, cfresh, caps, ccaps, poisoned, nbuilds, last>>
+vars == <<db, committed, b, fresh, cfresh, caps, ccaps, poisoned, nbuilds, last, breq>>
 
 Idle == [pc |-> "idle", i |-> 0, req |-> 0, cap |-> 0, items |-> {}, upd |-> {}, roots |-> <<>>,
          alloc |-> [avail |-> <<>>, cur |-> 0], large |-> {}, pending |-> {}, k |-> 0, target |-> 0]
@@ -60,6 +62,7 @@ Init ==
   /\ poisoned = FALSE
   /\ nbuilds = 0
   /\ last = "none"
+  /\ breq = [i \in Indexes |-> -1]
 
 CanCall == b.pc = "idle" /\ ~poisoned
 \* item operations after the last build of the bound add nothing that an earlier round does not show
@@ -72,14 +75,35 @@ Add(i, id, t) ==
   /\ db' = [db EXCEPT ![i] = AddOp(@, id, t)]
   /\ fresh' = [fresh EXCEPT ![i] = FALSE]
   /\ last' = "ok"
-  /\ UNCHANGED <<committed, b, cfresh, caps, ccaps, poisoned, nbuilds>>
+  /\ UNCHANGED <<committed, b, cfresh, caps, ccaps, poisoned, nbuilds, breq>>
 
 Del(i, id) ==
   /\ CanEdit
   /\ db' = [db EXCEPT ![i] = DelOp(@, id)]
   /\ fresh' = IF DelRet(db[i], id) THEN [fresh EXCEPT ![i] = FALSE] ELSE fresh
   /\ last' = "ok"
-  /\ UNCHANGED <<committed, b, cfresh, caps, ccaps, poisoned, nbuilds>>
+  /\ UNCHANGED <<committed, b, cfresh, caps, ccaps, poisoned, nbuilds, breq>>
+
+\* append_item: accepted iff the new key sorts after every key of the database (all indexes, all
+\* kinds: Keys.tla shows that byte order = (index, kind, id) order and that item keys are the
+\* last kind of an index), and then it is an add; otherwise nothing changes.
+IndexHasKeys(ix) == ix.store # EmptyFn \/ ix.updated # {} \/ ix.meta # NoMeta \/ ix.version # NoVersion \/ ix.nodes # EmptyFn
+AboveAll(d, i, id) == (\A x \in Live(d[i]) : x < id) /\ (\A j \in DOMAIN d : j > i => ~IndexHasKeys(d[j]))
+AppendItem(i, id, t) ==
+  /\ CanEdit
+  /\ IF AboveAll(db, i, id)
+     THEN /\ db' = [db EXCEPT ![i] = AddOp(@, id, t)]
+          /\ fresh' = [fresh EXCEPT ![i] = FALSE]
+          /\ last' = "ok"
+     ELSE /\ UNCHANGED <<db, fresh, breq>>
+          /\ last' = "rejected"
+  /\ UNCHANGED <<committed, b, cfresh, caps, ccaps, poisoned, nbuilds, breq>>
+
+\* a call with a vector of the wrong length is rejected before any write
+WrongLength(i) ==
+  /\ CanEdit
+  /\ last' = "rejected"
+  /\ UNCHANGED <<db, committed, b, fresh, cfresh, caps, ccaps, poisoned, nbuilds, breq>>
 
 Clear(i) ==
   /\ CanEdit
@@ -87,7 +111,7 @@ Clear(i) ==
   /\ fresh' = [fresh EXCEPT ![i] = FALSE]
   /\ caps' = [caps EXCEPT ![i] = {}]
   /\ last' = "ok"
-  /\ UNCHANGED <<committed, b, cfresh, ccaps, poisoned, nbuilds>>
+  /\ UNCHANGED <<committed, b, cfresh, ccaps, poisoned, nbuilds, breq>>
 
 ChangeMetric(i, m) ==
   /\ CanEdit
@@ -95,19 +119,20 @@ ChangeMetric(i, m) ==
   /\ fresh' = IF m = db[i].metric THEN fresh ELSE [fresh EXCEPT ![i] = FALSE]
   /\ caps' = IF m = db[i].metric THEN caps ELSE [caps EXCEPT ![i] = {}]
   /\ last' = "ok"
-  /\ UNCHANGED <<committed, b, cfresh, ccaps, poisoned, nbuilds>>
+  /\ UNCHANGED <<committed, b, cfresh, ccaps, poisoned, nbuilds, breq>>
 
 Commit ==
   /\ WithTxn /\ CanCall
   /\ committed' = db /\ cfresh' = fresh /\ ccaps' = caps
   /\ last' = "ok"
-  /\ UNCHANGED <<db, b, fresh, caps, poisoned, nbuilds>>
+  /\ UNCHANGED <<db, b, fresh, caps, poisoned, nbuilds, breq>>
 
 Abort ==
   /\ WithTxn /\ b.pc = "idle"
   /\ db' = committed /\ fresh' = cfresh /\ caps' = ccaps
   /\ poisoned' = FALSE
   /\ last' = "ok"
+  /\ breq' = [i \in Indexes |-> -2]
   /\ UNCHANGED <<committed, b, cfresh, ccaps, nbuilds>>
 
 -----------------------------------------------------------------------------
@@ -134,6 +159,7 @@ BuildStart(i, req, cap) ==
              /\ fresh' = [fresh EXCEPT ![i] = TRUE]
              /\ caps' = [caps EXCEPT ![i] = {cap}]   \* the forest was wiped and rebuilt under this capacity
              /\ last' = "ok"
+             /\ breq' = [breq EXCEPT ![i] = -1]
              /\ UNCHANGED <<committed, cfresh, ccaps, poisoned>>
         ELSE /\ db' = [db EXCEPT ![i].updated = {}]
              /\ b' = [pc |-> "delextra", i |-> i, req |-> req, cap |-> cap, items |-> items,
@@ -143,11 +169,11 @@ BuildStart(i, req, cap) ==
                       target |-> TargetTrees(req, ix.dim, n, Len(ix.meta.roots), AtLeastOne)]
              /\ caps' = [caps EXCEPT ![i] = @ \cup {cap}]
              /\ last' = "ok"
-             /\ UNCHANGED <<committed, fresh, cfresh, ccaps, poisoned>>
+             /\ UNCHANGED <<committed, fresh, cfresh, ccaps, poisoned, breq>>
 
 Fail(why) ==
   /\ b' = Idle /\ poisoned' = TRUE /\ last' = why
-  /\ UNCHANGED <<db, committed, fresh, cfresh, caps, ccaps, nbuilds>>
+  /\ UNCHANGED <<db, committed, fresh, cfresh, caps, ccaps, nbuilds, breq>>
 
 \* any poll of the cancellation callback may answer true (monotone callbacks: every phase polls)
 Cancel == WithCancel /\ b.pc # "idle" /\ Fail("cancelled")
@@ -168,9 +194,9 @@ DelExtra ==
              THEN Fail("missing_key")
              ELSE /\ SetNodes([n \in (DOMAIN Ix.nodes \ ts) |-> Ix.nodes[n]])
                   /\ b' = [b EXCEPT !.roots = rest]
-                  /\ UNCHANGED <<committed, fresh, cfresh, caps, ccaps, poisoned, nbuilds, last>>
+                  /\ UNCHANGED <<committed, fresh, cfresh, caps, ccaps, poisoned, nbuilds, last, breq>>
      ELSE /\ b' = [b EXCEPT !.pc = "delitems", !.k = 1]
-          /\ UNCHANGED <<db, committed, fresh, cfresh, caps, ccaps, poisoned, nbuilds, last>>
+          /\ UNCHANGED <<db, committed, fresh, cfresh, caps, ccaps, poisoned, nbuilds, last, breq>>
 
 \* delete_items_from_trees: every root is walked into one scratch file, which is applied at the end
 RECURSIVE DelAll(_, _, _)
@@ -184,7 +210,7 @@ DelItems ==
   /\ LET r == DelAll(Ix.nodes, b.roots, 1)
      IN /\ SetNodes(Apply(Ix.nodes, r.put, r.del))
         /\ b' = [b EXCEPT !.roots = SortedSeq(SeqToSet(r.roots)), !.pc = "insert"]
-  /\ UNCHANGED <<committed, fresh, cfresh, caps, ccaps, poisoned, nbuilds, last>>
+  /\ UNCHANGED <<committed, fresh, cfresh, caps, ccaps, poisoned, nbuilds, last, breq>>
 
 \* candidate batches: a non-empty prefix (smallest ids first) of at least min(lo, |S|) ids
 Prefixes(S, lo) ==
@@ -204,12 +230,12 @@ InsertBatch ==
   /\ b.pc = "insert"
   /\ IF b.pending = {} \/ b.roots = <<>>
      THEN /\ b' = [b EXCEPT !.pc = "missing", !.pending = {}]
-          /\ UNCHANGED <<db, committed, fresh, cfresh, caps, ccaps, poisoned, nbuilds, last>>
+          /\ UNCHANGED <<db, committed, fresh, cfresh, caps, ccaps, poisoned, nbuilds, last, breq>>
      ELSE \E batch \in Prefixes(b.pending, MinBatch) :
           \E o \in InsertAll(Ix.nodes, b.roots, 1, batch, b.alloc) :
             /\ SetNodes(Apply(Ix.nodes, o.put, {}))
             /\ b' = [b EXCEPT !.pending = @ \ batch, !.alloc = o.alloc, !.large = @ \cup o.large]
-            /\ UNCHANGED <<committed, fresh, cfresh, caps, ccaps, poisoned, nbuilds, last>>
+            /\ UNCHANGED <<committed, fresh, cfresh, caps, ccaps, poisoned, nbuilds, last, breq>>
 
 \* one missing tree per step: a single over-full bucket holding every item
 CreateMissing ==
@@ -218,9 +244,9 @@ CreateMissing ==
      THEN LET nx == AllocNext(b.alloc) IN
           /\ SetNodes((nx.id :> Bucket(b.items)) @@ Ix.nodes)
           /\ b' = [b EXCEPT !.roots = Append(@, nx.id), !.large = @ \cup {nx.id}, !.alloc = nx.a]
-          /\ UNCHANGED <<committed, fresh, cfresh, caps, ccaps, poisoned, nbuilds, last>>
+          /\ UNCHANGED <<committed, fresh, cfresh, caps, ccaps, poisoned, nbuilds, last, breq>>
      ELSE /\ b' = [b EXCEPT !.pc = "split"]
-          /\ UNCHANGED <<db, committed, fresh, cfresh, caps, ccaps, poisoned, nbuilds, last>>
+          /\ UNCHANGED <<db, committed, fresh, cfresh, caps, ccaps, poisoned, nbuilds, last, breq>>
 
 \* incremental_index_large_descendants, one iteration: build a sub-tree from a batch of the
 \* bucket's items, put its root at the bucket's id, route the remainder into it.
@@ -228,7 +254,7 @@ SplitOneLarge ==
   /\ b.pc = "split"
   /\ IF b.large = {}
      THEN /\ b' = [b EXCEPT !.pc = "writemeta"]
-          /\ UNCHANGED <<db, committed, fresh, cfresh, caps, ccaps, poisoned, nbuilds, last>>
+          /\ UNCHANGED <<db, committed, fresh, cfresh, caps, ccaps, poisoned, nbuilds, last, breq>>
      ELSE LET d == Min(b.large) IN
           IF d \notin DOMAIN Ix.nodes \/ ~IsBucket(Ix.nodes[d])
           THEN Fail("panic")          \* the code unwraps / hits unreachable!()
@@ -243,11 +269,11 @@ SplitOneLarge ==
                     IN IF rest = {}
                        THEN /\ SetNodes(nodes1)
                             /\ b' = [b EXCEPT !.large = @ \ {d}, !.alloc = t.alloc]
-                            /\ UNCHANGED <<committed, fresh, cfresh, caps, ccaps, poisoned, nbuilds, last>>
+                            /\ UNCHANGED <<committed, fresh, cfresh, caps, ccaps, poisoned, nbuilds, last, breq>>
                        ELSE \E o \in InsertInto(nodes1, TreeRef(d), rest, b.cap, t.alloc, AsCodedInsert, Ix.store) :
                             /\ SetNodes(Apply(nodes1, o.put, {}))
                             /\ b' = [b EXCEPT !.large = (@ \ {d}) \cup o.large, !.alloc = o.alloc]
-                            /\ UNCHANGED <<committed, fresh, cfresh, caps, ccaps, poisoned, nbuilds, last>>
+                            /\ UNCHANGED <<committed, fresh, cfresh, caps, ccaps, poisoned, nbuilds, last, breq>>
 
 WriteMeta ==
   /\ b.pc = "writemeta"
@@ -255,6 +281,7 @@ WriteMeta ==
   /\ b' = Idle
   /\ fresh' = [fresh EXCEPT ![b.i] = TRUE]
   /\ last' = "ok"
+  /\ breq' = [breq EXCEPT ![b.i] = b.req]
   /\ UNCHANGED <<committed, cfresh, caps, ccaps, poisoned, nbuilds>>
 
 BuildStep == DelExtra \/ DelItems \/ InsertBatch \/ CreateMissing \/ SplitOneLarge \/ WriteMeta
@@ -262,6 +289,8 @@ BuildStep == DelExtra \/ DelItems \/ InsertBatch \/ CreateMissing \/ SplitOneLar
 Next ==
   \/ \E i \in Indexes, id \in Ids, t \in Toks : Add(i, id, t)
   \/ \E i \in Indexes, id \in Ids : Del(i, id)
+  \/ (WithAppend /\ \E i \in Indexes, id \in Ids, t \in Toks : AppendItem(i, id, t))
+  \/ (WithAppend /\ \E i \in Indexes : WrongLength(i))
   \/ \E i \in Indexes : Clear(i)
   \/ \E i \in Indexes, m \in Metrics : ChangeMetric(i, m)
   \/ \E i \in Indexes, r \in Reqs, c \in Caps : BuildStart(i, r, c)
@@ -298,6 +327,10 @@ TreeCount ==
          nt == Len(db[i].meta.roots)
      IN /\ n = 0 => nt = 0
         /\ n > 0 => nt >= 1
+RequestedTreeCount ==
+  Quiescent => \A i \in Indexes : (fresh[i] /\ breq[i] > 0) => Len(db[i].meta.roots) = breq[i]
+SingleBucketIndex ==
+  Quiescent => \A i \in Indexes : (fresh[i] /\ breq[i] = -1 /\ Live(db[i]) # {}) => Len(db[i].meta.roots) <= 1
 BucketsWithinConstantCapacity ==
   Quiescent => \A i \in Indexes : fresh[i] =>
      \A c \in Caps : caps[i] = {c} => BucketBound(db[i].nodes, c)
@@ -325,6 +358,26 @@ NoInternalError == last # "missing_key"
 \* C07: a step changes at most one index (Abort restores the committed database as a whole)
 OthersUntouched ==
   [][(\E i \in Indexes : \A j \in Indexes \ {i} : db'[j] = db[j]) \/ db' = committed]_vars
+
+\* C05: a build never changes the item store
+BuildKeepsItems ==
+  [][(b.pc # "idle" \/ b'.pc # "idle") => \A i \in Indexes : db'[i].store = db[i].store]_vars
+
+\* C19: a rejected call is a stuttering step on the database and on staleness
+RejectedChangesNothing ==
+  [][last' = "rejected" => (db' = db /\ fresh' = fresh)]_vars
+
+\* C18: changing the metric keeps the items, drops the forest and the metadata, demands a build
+MetricChange ==
+  [][\A i \in Indexes : db'[i].metric # db[i].metric =>
+        /\ Live(db'[i]) = Live(db[i])
+        /\ db'[i].nodes = EmptyFn /\ db'[i].meta = NoMeta
+        /\ db'[i].updated = db[i].updated
+        /\ NeedBuildRes(db'[i])
+        /\ \A m \in Metrics : OpenRes(db'[i], m) # "Ok"]_vars
+
+\* C08/C10 (design level): abort restores exactly what was committed
+AbortRestores == [][(db' = committed /\ poisoned' = FALSE) \/ poisoned' = poisoned \/ poisoned']_vars
 
 \* C14 / C20 (design level): every build ends
 BuildEnds == (b.pc # "idle") ~> (b.pc = "idle")
